@@ -37,7 +37,17 @@ pub struct SendPlan {
 #[derive(Clone, Debug, Serialize, Deserialize)]
 pub enum Case {
     History { ops: Vec<Op> },
-    Race { sends: Vec<SendPlan>, drop_jitter: u16, by_process: bool, bytes: bool },
+    Race {
+        sends: Vec<SendPlan>,
+        drop_jitter: u16,
+        by_process: bool,
+        bytes: bool,
+        /// (process mode) the receiving process reads the stream and is killed at the generated
+        /// point - possibly in the middle of reassembling a multi-packet message - instead of
+        /// dropping a receiver it never read from
+        #[serde(default)]
+        drain: bool,
+    },
 }
 
 fn sigpipe_default() {
@@ -65,8 +75,8 @@ impl Prop for C09 {
         // size class 9: a message far larger than the kernel buffers - its send blocks until the
         // receiver reads or vanishes (the receiver of the race never reads, it only vanishes)
         let plan = (prop_oneof![6 => Just(0u8), 3 => 1u8..4, 1 => Just(9u8)], any::<bool>(), 0u16..2000).prop_map(|(size, attach, jitter)| SendPlan { size, attach, jitter });
-        let race = (proptest::collection::vec(plan, 1..9), 0u16..6000, any::<bool>(), any::<bool>())
-            .prop_map(|(sends, drop_jitter, by_process, bytes)| Case::Race { sends, drop_jitter, by_process, bytes });
+        let race = (proptest::collection::vec(plan, 1..9), 0u16..6000, any::<bool>(), any::<bool>(), any::<bool>())
+            .prop_map(|(sends, drop_jitter, by_process, bytes, drain)| Case::Race { sends, drop_jitter, by_process, bytes, drain });
         prop_oneof![3 => hist, 2 => race].boxed()
     }
 
@@ -94,7 +104,7 @@ impl Prop for C09 {
                     .with("rich_sends_err", s.rich_sends_err as u64)
                     .with("sends_to_in_transit_receiver", s.sends_to_in_transit_rx as u64))
             },
-            Case::Race { sends, drop_jitter, by_process, bytes } => race(sends, *drop_jitter, *by_process, *bytes),
+            Case::Race { sends, drop_jitter, by_process, bytes, drain } => race(sends, *drop_jitter, *by_process, *bytes, *drain),
         });
         match end {
             ChildEnd::Exited(0) => match res {
@@ -113,9 +123,10 @@ impl Prop for C09 {
     }
 }
 
-fn race(sends: &[SendPlan], drop_jitter: u16, by_process: bool, bytes: bool) -> Result<Outcome, Failure> {
+fn race(sends: &[SendPlan], drop_jitter: u16, by_process: bool, bytes: bool, drain: bool) -> Result<Outcome, Failure> {
     let (f1, f) = c01::capacities();
     let by_process = by_process && !cfg!(feature = "inproc");
+    let drain = drain && by_process;
     let sh = ip::shared();
     sh.scratch[0].store(0, SeqCst); // go flag
     sh.scratch[1].store(0, SeqCst); // drop start stamp
@@ -159,7 +170,38 @@ fn race(sends: &[SendPlan], drop_jitter: u16, by_process: bool, bytes: bool) -> 
     };
     let mut child = None;
     let mut dropper = None;
-    if by_process {
+    if drain {
+        // the receiver moves to a forked process that reads whatever arrives; a thread of this
+        // process kills it at the generated point (its descriptors vanish with it)
+        let c = sandbox::fork_child(move |_w| {
+            loop {
+                let gone = match &rx {
+                    Rx::T(r) => r.recv().is_err(),
+                    Rx::B(r) => r.recv().is_err(),
+                };
+                if gone {
+                    return 0;
+                }
+            }
+        });
+        dropper = Some(std::thread::spawn(move || {
+            let sh = ip::shared();
+            while sh.scratch[0].load(SeqCst) == 0 {
+                std::hint::spin_loop();
+            }
+            if wait_for_huge {
+                let t0 = std::time::Instant::now();
+                while sh.scratch[3].load(SeqCst) == 0 && t0.elapsed() < std::time::Duration::from_secs(5) {
+                    std::thread::yield_now();
+                }
+            }
+            sandbox::spin(drop_jitter as u32 * 16);
+            sh.scratch[1].store(stamp(), SeqCst);
+            c.kill();
+            let _ = c.wait(Duration::from_secs(5));
+            sh.scratch[2].store(stamp(), SeqCst);
+        }));
+    } else if by_process {
         // the receiver moves to a forked process (this process is single-threaded here)
         let c = sandbox::fork_child(|_w| {
             do_drop(rx);
@@ -180,11 +222,14 @@ fn race(sends: &[SendPlan], drop_jitter: u16, by_process: bool, bytes: bool) -> 
             sandbox::spin(p.jitter as u32 * 16);
             let len = match p.size {
                 0 => 100,
+                9 if drain => 6_000_000,
                 9 => 700_000,
                 n => (f1 + n as usize * f - 33).min(300_000),
             };
             let body = payload::make(0, 0, k as u32, len, k as u64 + 1);
-            if p.size == 9 {
+            if p.size == 9 || len > 100_000 {
+                // this send may block on full buffers until the receiver vanishes: whoever waits
+                // for the huge send must not wait beyond this point
                 ip::shared().scratch[3].store(1, SeqCst);
             }
             let s = stamp();
@@ -238,6 +283,6 @@ fn race(sends: &[SendPlan], drop_jitter: u16, by_process: bool, bytes: bool) -> 
             ensure!(*ok, "race:error-before-receiver-dropped", "send {} returned at stamp {} before the receiver's drop began (stamp {}) but failed", k, e, ds);
         }
     }
-    let class = format!("race/{}{}{}{}", if by_process { "process" } else { "thread" }, if bytes { "+bytes" } else { "" }, if rich_after > 0 { "+rich-send-after-drop" } else if after > 0 { "+send-after-drop" } else { "" }, if huge_seen.load(SeqCst) && spanning { "+drop-during-blocked-huge-send" } else if huge_seen.load(SeqCst) { "+huge-send" } else { "" });
+    let class = format!("race/{}{}{}{}", if drain { "process-killed-while-reading" } else if by_process { "process" } else { "thread" }, if bytes { "+bytes" } else { "" }, if rich_after > 0 { "+rich-send-after-drop" } else if after > 0 { "+send-after-drop" } else { "" }, if huge_seen.load(SeqCst) && spanning { "+drop-during-blocked-huge-send" } else if huge_seen.load(SeqCst) { "+huge-send" } else { "" });
     Ok(Outcome::new(rich_after > 0, class).with("race_sends_after_drop", after))
 }
